@@ -292,6 +292,19 @@ static void check_c16(const Spec& sp, const std::vector<Tok>& toks, int maxlen, 
                 // the operations after the failing one must have no effect (the script would have stopped there): the state must be the
                 // one reached by exec of the list cut after the failing operation (differential oracle; independent of how much of the
                 // failing operation itself was applied before it failed)
+                // ... and the failing operation itself leaves the session where it was, as a failing step does: the state is the one
+                // reached by exec of the operations before it (the untouched session when it is the first one)
+                if (which < l.size()) {
+                    Sess S4; if (!S4.open(sp)) continue;
+                    for (int i = 0; i < k; i++) S4.s.inst.step();
+                    if (which > 0) { std::vector<char*> argv4(argv.begin(), argv.begin() + which); try { S4.s.inst.eval(argv4.size(), argv4.data()); } catch (const std::exception&) {} st.evals++; }
+                    const char* kd = nullptr;
+                    if (S.s.stack() != S4.s.stack()) kd = "stack"; else if (S.s.alt() != S4.s.alt()) kd = "altstack";
+                    else if (S.s.cond_size() != S4.s.cond_size() || S.s.cond_first_false() != S4.s.cond_first_false()) kd = "cond";
+                    else if (S.s.env().nOpCount != S4.s.env().nOpCount) kd = "opcount";
+                    if (kd && which + 1 == l.size()) rep(std::string("exec-failed-operation-has-effect:") + impl::sv_name(sp.sv) + ";failed=" + texts[which] + ";" + kd,
+                                std::string("the failing operation (") + texts[which] + ") changed the " + kd + " although a failing step of the same operation leaves the session untouched: stack=" + impl::stack_str(S.s.stack()) + " vs " + impl::stack_str(S4.s.stack()));
+                }
                 if (which + 1 < l.size()) {
                     Sess S3; if (!S3.open(sp)) continue;
                     for (int i = 0; i < k; i++) S3.s.inst.step();
